@@ -92,6 +92,12 @@ partial def ys? : Sexp → Option Ys
       | _ => none
     some (.sub (.dict (ps.map (·.1)) (toYsL (ps.map (·.2)))))
   -- an @async_proxy() function returning None or a container (of futures) instead of one future
+  -- a child task whose explicit asyncio_fn is written as a generator-based coroutine (`@types.coroutine`)
+  | .list [.atom "gco", y] => do
+    let y' ← ys? y
+    match y' with
+    | .task c p => if c.afn then some (.gco (.task c p)) else none
+    | _ => none
   | .list [.atom "pval", y] => do
     let y' ← ys? y
     match y' with
@@ -163,13 +169,21 @@ def firstDiff : List Obs → List Obs → Option String
   | m :: _, [] => some s!"impl lacks {convName m.conv}"
   | [], i :: _ => some s!"impl has extra {convName i.conv}"
 
+/-- is the root call `(pure 0 label var)` with bit 1 of `var` set: the `pure=True` function declared as a METHOD of a class and
+    reached through its binder (`Asyncio.observeR`)?  (for a child the bit selects an access path the model does not distinguish) -/
+def rootPM : Sexp → Bool
+  | .list [.atom "pure", _, _, v] => (v.nat?.getD 0) / 2 % 2 == 1
+  | _ => false
+
 /-- `hdr` = `[(task CALL PROG)]`; `body` = one `(conv ...)` line per way of running -/
 def handle (id : Nat) (hdr : List Sexp) (body : List Sexp) : String :=
   match hdr with
   | [.list [.atom "task", c, p]] =>
+    let pm := rootPM c
     match call? c, prog? p, body.mapM obs? with
     | some c, some p, some impl =>
-      let model := observe c p
+      -- `specClausePWith model` below = `specClausePR pm` (by definition), with the model run once
+      let model := observeR pm c p
       let corr := firstDiff model impl
       -- `specClausePWith model` = `specClauseP` (by definition), with the model run once
       let spec := specClausePWith model c p impl
